@@ -117,6 +117,32 @@ def leaf_cases(rng: random.Random, name: str, n: int):
             events = [types.SimpleNamespace(timestamp=t) for t in stamps]
             c = sum(1 for t in stamps if s <= t <= e)  # the leaf's opaque input, by its definition in the source
             out.append((f"leaf nps {arg(s)} {arg(e)} {arg(c)}", call(Chart._notes_per_second, events, s, e)))
+        elif name == "hopo":
+            from chartparse.instrument import Note, NoteEvent
+            from chartparse.tick import NoteDuration
+            notes = [m for m in Note if isinstance(m.value, tuple)]
+            res = rng.choice([1, 2, 3, 4, 5, 100, 192, 480, rng.randint(1, 2000)])
+            f = getattr(tick.note_duration_to_ticks, "__wrapped__", tick.note_duration_to_ticks)
+            thr = f(res, NoteDuration.EIGHTH_TRIPLET)
+            note = rng.choice(notes)
+            tap, forced = rng.random() < 0.3, rng.random() < 0.4
+            if rng.random() < 0.15:
+                prev, pt, pn = None, 0, note
+            else:
+                pn = rng.choice(notes + [note])
+                pt = rng.randint(0, 3000)
+                prev = types.SimpleNamespace(tick=pt, note=pn)
+            tk = pt + rng.choice([0, 1, thr - 1, thr, thr + 1, rng.randint(0, 1000)]) if thr >= 1 else pt + rng.randint(0, 5)
+            tk = max(tk, 0)
+            bits = lambda n: "".join(str(b) for b in n.value)  # noqa: E731
+            real = call(lambda: NoteEvent._compute_hopo_state(res, tk, note, tap, forced, prev))
+            real = real.replace("?HOPOState", "enum")  # show() prints unknown types by class name; give the member below
+            try:
+                real = "enum HOPOState." + NoteEvent._compute_hopo_state(res, tk, note, tap, forced, prev).name
+            except ValueError:
+                real = "E ValueError"
+            out.append((f"leaf hopo i:{thr} i:{tk} o:{bits(note)} b:{int(note.is_chord())} b:{int(tap)} b:{int(forced)} "
+                        + ("n:" if prev is None else "o:") + f" i:{pt} o:{bits(pn)}", real))
         elif name == "anchor":
             us = rng.choice([0, 1, rng.randint(0, 10**9), rng.randint(2**53, 2**56), rng.randint(10**16, 8 * 10**19), 8670214808394963])
 
